@@ -21,6 +21,17 @@ PROPS = {
         trusted_base=RESTORE_TB,
         assumptions=["the number of line breaks between positions determines blank lines in the printed text (go/printer: >= 2 breaks print as one blank line); the clause about argument lists split one per line is go/printer behaviour checked on the implementation only"],
     ),
+    "C06": dict(
+        unknown_keys=["clone-generated.go", "clone.go", "dst.go", "decorations-types-generated.go", "restorer-generated.go"],
+        trusted_base=[KERNEL, TRANSLATOR + " (clone-generated.go, clone.go -> Gen/CloneTbl.v statement by statement; dst.go, decorations-types-generated.go -> Gen/Universe.v; restorer-generated.go -> Gen/RestTbl.v)",
+                      HARNESS + "; the generic clone interpreter (Model/Clone.v, field-by-field semantics of the assignments of a Clone case) is tied to the real dst.Clone by correspondence on dumped trees decorated on every point",
+                      "Go append semantics as in Model/SliceHeap.v (corresponded for C19): append(nil-slice, src...) allocates a new array",
+                      "hand model of restorer.go for the duplicate-node check (Model/Restore.v, corresponded for C04/C05/C12)",
+                      "assumption P for 'prints identically': the printed text is a function of the restorer's action list"],
+        assumptions=["trees conform to the universe (conforms_full, spacing_conforms: evaluated on every dumped tree of the correspondence)",
+                     "node identity is kept in the model (a clone carries the id of the node it was cloned from); that clone nodes are new allocations is read off the table shape (out := &K{}) and checked on the implementation by pointer-identity comparison",
+                     "'prints identically' composes C06_clone_is_complete_copy with the table obligations C06_clone_covers_what_printing_consults / C06_init_spacing_never_rendered; the composition (flatten depends on the tree only through the copied fields) is exercised by C06_nonvacuous and the implementation oracle, not stated as one theorem"],
+    ),
     "C12": dict(
         unknown_keys=["restorer-generated.go"],
         trusted_base=RESTORE_TB,
